@@ -120,6 +120,25 @@ rp_listen_tcp(int *port)
 }
 
 int
+rp_listen_tcp_port(int port)
+{
+	int                fd = socket(AF_INET, SOCK_STREAM, 0);
+	struct sockaddr_in sa;
+	int                one = 1;
+	setsockopt(fd, SOL_SOCKET, SO_REUSEADDR, &one, sizeof one);
+	memset(&sa, 0, sizeof sa);
+	sa.sin_family      = AF_INET;
+	sa.sin_addr.s_addr = htonl(INADDR_LOOPBACK);
+	sa.sin_port        = htons((uint16_t) port);
+	if (bind(fd, (struct sockaddr *) &sa, sizeof sa) != 0 || listen(fd, 16) != 0) {
+		close(fd);
+		return -1;
+	}
+	nonblock(fd);
+	return fd;
+}
+
+int
 rp_accept(rp *p, int lfd, int kind)
 {
 	int fd = accept(lfd, NULL, NULL);
